@@ -14,7 +14,7 @@ from vt import reqworld   # noqa: F401  imported here so that forked workers inh
 from vt.world import vworld
 from vt.world.vworld import World, VServer, HostSpec
 from vt.world import wire
-from vt.core import Part
+from vt.core import Part, HarnessError
 from vt.spec import schemaagree
 
 META = {
@@ -31,7 +31,10 @@ META = {
             'Direct call: True only if the last poll made shows one version among the control node and the known peers not marked down, no poll after '
             'an agreeing one, False only if no poll agreed and the virtual time spent reached the budget; a wait whose last poll failed may raise or '
             'return False, never True.  DDL path (schema metadata enabled and disabled): ResponseFuture.is_schema_agreed equals that verdict over '
-            'the polls made until the request completed (False after a failed poll) and the request completes.',
+            'the polls made until the request completed (False after a failed poll) and the request completes; the flag is read three times: after '
+            'completion, inside a callback attached with add_callbacks() before completion (the moment the result is delivered), and at the moment '
+            'the completion event is set (what a thread returning from result() at once sees); all three must show the verdict '
+            '(fingerprints .../at-delivery/<observer>/...).',
     'note': 'Peer states are set on the Host objects (is_up) after a normal connect.  A budget <= 0 is the documented bypass and is only recorded, '
             'not judged.  With schema metadata enabled the virtual node answers every system_schema query with an empty result.  A connection is lost the '
             'way the reactors report it: close() for an orderly close by the peer, defunct(OSError) for a socket error, delivered in the place of '
@@ -47,6 +50,8 @@ BUDGETS = [0.1, 0.5, 0.7]
 # a poll that fails: 'x' the node closes the connection while both reads are outstanding (ConnectionShutdown), 'e' the socket
 # fails (defunct(OSError)), 'r' the node answers the system.peers read with a server error
 FAULTS = {'x': 'closed', 'e': 'socket error', 'r': 'error response'}
+OBSERVERS = {'callback': 'read inside a callback that was attached with add_callbacks() before the request completed',
+             'result-waiter': 'read at the moment the completion event is set, i.e. by a thread whose result() returns at once'}
 CCT_DEFAULT = 2.0        # Cluster.control_connection_timeout: the per-poll timeout (an unanswered poll costs min(this, rest of the budget))
 CCT_SHORT = 0.25         # shorter than the budgets: an unanswered poll is followed by further polls
 
@@ -191,7 +196,19 @@ def play(mode, seq, states, budget, poll_host, meta, cct=CCT_DEFAULT):
                     if out['polls_at_completion'] is None:
                         out['polls_at_completion'] = len(sc.polls)
                         out['elapsed_at_completion'] = w.clock.now - t0
+                        # observer 1: a callback attached before completion reads the flag while the result is delivered to it
+                        out['result_in_callback'] = f.is_schema_agreed
                 f.add_callbacks(done, done)
+                # observer 2: a thread blocked in result() that runs as soon as the future's completion event is set
+                # (the earliest moment at which result() can return) and reads the flag
+                ev = f._event
+                ev_set = ev.set
+
+                def set_and_look():
+                    ev_set()
+                    if 'result_at_wakeup' not in out:
+                        out['result_at_wakeup'] = f.is_schema_agreed
+                ev.set = set_and_look
                 w.pump()
                 out['completed'] = f._event.is_set()
                 out['error'] = repr(f._final_exception) if f._final_exception is not None else None
@@ -266,6 +283,21 @@ def run_chunk(cases):
         for clause, text in schemaagree.judge(got['result'], verdicts, budget, got['elapsed']):
             what = 'is_schema_agreed' if mode == 'ddl' else 'wait_for_schema_agreement()'
             part.violation('C43/%s/%s' % (where, clause), '%s: %s %s' % (what, text, ctxt), data)
+        if mode == 'ddl':
+            # "the result records whether agreement was reached": whoever is handed the result must find the verdict in it
+            for observer, key in (('callback', 'result_in_callback'), ('result-waiter', 'result_at_wakeup')):
+                if key not in got:
+                    raise HarnessError('the DDL request completed but the %s observer never ran: %r' % (observer, got))
+                part.count('delivery_observations/%s/%r' % (observer, got[key]))
+                if got[key] is not True and got[key] is not False:
+                    if faulted:
+                        part.violation('C43/%s/at-delivery/%s/verdict-not-bool' % (where, observer),
+                                       'is_schema_agreed is %r when the result is delivered (%s) %s' % (got[key], OBSERVERS[observer], ctxt), data)
+                        continue
+                for clause, text in schemaagree.judge(got[key], verdicts, budget, got['elapsed']):
+                    part.violation('C43/%s/at-delivery/%s/%s' % (where, observer, clause),
+                                   'is_schema_agreed read when the result is delivered (%s; it is %r after completion): %s %s'
+                                   % (OBSERVERS[observer], got['result'], text, ctxt), data)
     return part
 
 
@@ -369,7 +401,8 @@ def run(ctx):
                        'stated alphabets (plus the poll timeout for scripts with unanswered polls); transitions = polls served; non-trivial = script with differing '
                        'poll verdicts, an unanswered or a failed poll, or a peer that is marked down / unknown; outcomes = (mode, metadata, verdict, polls made, '
                        'raised?, ended by a failed poll?); counters waits_ended_by_a_failed_poll / waits_polling_on_after_an_unanswered_poll = executions in '
-                       'which that actually happened')
+                       'which that actually happened; delivery_observations/<observer>/<value> = DDL executions in which that observer read that value '
+                       'of is_schema_agreed while the result was being delivered')
     ctx.cov['exhaustive'] = True
     ctx.assume('peer states are the is_up attribute of the Host objects at the time of the wait (set directly after a normal connect)')
     ctx.assume('max_schema_agreement_wait <= 0 is the documented bypass of the agreement check: recorded, not judged')
